@@ -146,3 +146,41 @@ def Distinct(s):
     E-matching and model finding than the two-variable disequality form)"""
     i = _v("di", IntS)
     return z3.ForAll([i], z3.Implies(z3.And(0 <= i, i < slen(s)), _pos(s, at(s, i)) == i), patterns=[at(s, i)])
+
+
+_lit_cache = {}
+
+
+def _pattern_ok(t) -> bool:
+    stack = [t]
+    while stack:
+        x = stack.pop()
+        if z3.is_quantifier(x):
+            return False
+        if z3.is_app(x):
+            k = x.decl().kind()
+            if k not in (z3.Z3_OP_UNINTERPRETED, z3.Z3_OP_ANUM, z3.Z3_OP_ADD, z3.Z3_OP_SUB, z3.Z3_OP_SELECT):
+                return False
+            stack.extend(x.children())
+    return True
+
+
+def Literal(st, elems):
+    """a display of n known elements: the term `sq_lit_n(e1..en)` is a function of its elements, so two
+    displays with equal elements are equal sequences by congruence (tuples used as set members / keys)"""
+    n = len(elems)
+    if n == 0:
+        return EMPTY
+    if n not in _lit_cache:
+        _lit_cache[n] = z3.Function(f"sq_lit_{n}", *([V] * n), Sq)
+    t = _lit_cache[n](*elems)
+    st.pc.append(slen(t) == n)
+    for i, e in enumerate(elems):
+        st.pc.append(at(t, i) == e)
+    y = _v("ly", V)
+    body = smem(t, y) == z3.Or(*[y == e for e in elems])
+    if all(_pattern_ok(e) for e in elems):
+        st.pc.append(z3.ForAll([y], body, patterns=[smem(t, y)]))
+    else:
+        st.pc.append(z3.ForAll([y], body))
+    return t
